@@ -77,7 +77,7 @@ CHECKS["C15"] = dict(
          "TLC-enumerated valid token text that violates a rule the statement lists; at object level one breaking operator per rule of the statement (unknown "
          "distribution, list length, negative weight, text after mixture, percentage range, non-generable, missing / mismatching prefix in both directions, braces, "
          "brackets, unknown symbol) applied to library instances and TLC-enumerated shapes. The real outcome must be a rejection (parse error, not generable, or error "
-         "at generate); a returned token / molecule is the violation. Parsing of byte-level mutations must return within a time bound.",
+         "at generate); a returned token / molecule is the violation. Parsing of byte-level mutations must return within a time bound. Rejected texts are parsed a second time in the same process (a rejection must not depend on history); systems with a non-generable component in every position and with negative masses must refuse; every system text of SystemScan.tla up to a length is checked for termination and for text after a mixture specifier.",
     design_ref="DESIGN.md 4/C15",
     note="Trusted: TLC; the rule predicates (branch balance in written order, descriptor between atoms). The termination clause on arbitrary bytes is bounded-time fuzzing, not model checking.",
     technique="TLA+ spec with breaking actions enumerated by TLC; derived ill-formed inputs replayed into the parser / generator",
@@ -116,7 +116,7 @@ CHECKS["C10"] = dict(
          "observe (both printed forms, generable, elements, mirror, reaction graph, atom graph) / element-by-element generation / atom-graph generation, on two slots that "
          "may hold the same string. Every history is replayed in the real library and every observation compared with a baseline computed in a pristine interpreter per "
          "(string, operation, argument). Strings include a left terminal with a transition list, a gaussian with negative draws (seed chosen so that the target IS negative), "
-         "branched weighted end-group starts, Schulz-Zimm alternating copolymers and a connector molecule.",
+         "branched weighted end-group starts, Schulz-Zimm alternating copolymers and a connector molecule. The strings include listed transitions that decide the molecule, two systems that re-use number texts as percentage and as mass, one fragment in two spellings, all-zero choices; systems are observed through single-molecule generation and the whole ensemble under a seeded generator.",
     design_ref="DESIGN.md 4/C10",
     note="Trusted: TLC (enumeration of histories), the baseline = same code in a spawned pristine process (two pristine processes are also compared with each other).",
     technique="TLA+ history spec enumerated exhaustively by TLC; every history replayed into the implementation against pristine baselines",
@@ -156,7 +156,7 @@ CHECKS["C17"] = dict(
     text="AtomGraph.tla defines the stochastic atom graph as an operator of the instance (nodes per atom with element / charge / aromaticity, static edges, and "
          "stochastic / termination / transition edges between attachment atoms of compatible descriptors built from the same descriptor algebra as the generation "
          "machine); TLC evaluates it per instance, checks NothingLeavesEndGroups and StaticSymmetric, and exports it; every node and edge (kind, order, weight, as "
-         "multisets per atom pair) is compared with Molecule.gen_stochastic_atom_graph().graph in both directions, with and without Schulz-Zimm distributions.",
+         "multisets per atom pair) is compared with Molecule.gen_stochastic_atom_graph().graph in both directions, with and without Schulz-Zimm distributions. The dot export is exercised as a read-only query: the graph object is compared before and after.",
     design_ref="DESIGN.md 4/C17",
     note="Trusted: TLC, RDKit token chemistry. Zero-weight non-static edges are ignored on both sides; termination edges out of a listed descriptor are admissible with free weight.",
     technique="TLA+ spec (graph as operator of the instance) evaluated by TLC; exported graph compared edge by edge with the implementation's",
@@ -197,7 +197,7 @@ CHECKS["C11"] = dict(
     text="Law.tla states what makes recorded numbers ONE coherent law (mass function non-negative and equal to the declared law, total mass 1, interval probability = difference of the "
          "law's own cumulative function, a draw at quantile u returns x with F(x-) <= u <= F(x) inside the support, documented mean) and TLC evaluates it on every record; records come "
          "from parameter grids of all six families (several objects of a family alive together), scripted quantile grids for the draws, random intervals; text form and rejection of "
-         "unknown names are checked directly.",
+         "unknown names are checked directly. Laws of different families whose parameters coincide as location / scale are created next to each other in both orders; the parameter line z = 1 of Schulz-Zimm is included.",
     design_ref="DESIGN.md 4/C11", note=_LAW_NOTE,
     technique="TLA+ law relations (Law.tla) checked by TLC on recorded values of prob_mw / interval / draw_mw",
 )
@@ -210,7 +210,7 @@ CHECKS["C19"] = dict(
          "(2) Closed form P = start probability x product over blocks of F(M_n) - F(M_{n-1}) (reference CDF at the cumulative unit masses). get_ensemble_prob is queried for every chain "
          "length with non-negligible mass for one to three blocks, prefix / [H] start / two competing start groups, all six families (two parameter sets per family on the same unit), "
          "random atom orders of the query, and molecules outside the ensemble; single-block relations (record kinds 'chain', 'total', 'zero') are evaluated by TLC, products of several "
-         "blocks in Python. Five defects of the unchanged code are known findings, recognised by designated probe cases or by their verified cause.",
+         "blocks in Python. Five defects of the unchanged code are known findings, recognised by designated probe cases or by their verified cause. Chain lengths whose block mass lies outside a bounded support are outside the ensemble and must get probability 0.",
     design_ref="DESIGN.md 4/C19", note=_LAW_NOTE,
     technique="distribution over molecules derived by TLC from the generation-machine spec (GenerateProb.tla) compared with the reported probabilities; TLA+ law relations (Law.tla) checked by TLC on recorded ensemble probabilities",
 )
